@@ -53,7 +53,7 @@ func WithClosures(fn *ssa.Function) []*ssa.Function {
 // Callees resolves a call site: static callee if any, else the VTA call-graph edges.
 func (p *Prog) Callees(cs CallSite) []*ssa.Function {
 	if f := cs.Common().StaticCallee(); f != nil {
-		return []*ssa.Function{f}
+		return []*ssa.Function{Unwrap2(f)}
 	}
 	n := p.CallGraph().Nodes[cs.Fn]
 	if n == nil {
@@ -62,9 +62,12 @@ func (p *Prog) Callees(cs CallSite) []*ssa.Function {
 	var out []*ssa.Function
 	seen := map[*ssa.Function]bool{}
 	for _, e := range n.Out {
-		if e.Site == cs.Instr && !seen[e.Callee.Func] {
-			seen[e.Callee.Func] = true
-			out = append(out, e.Callee.Func)
+		if e.Site == cs.Instr {
+			f := Unwrap2(e.Callee.Func)
+			if !seen[f] {
+				seen[f] = true
+				out = append(out, f)
+			}
 		}
 	}
 	sort.Slice(out, func(i, j int) bool { return out[i].String() < out[j].String() })
@@ -329,4 +332,28 @@ func BaseName(fn *ssa.Function) string {
 		n = n[:i]
 	}
 	return n
+}
+
+// Unwrap2 resolves a synthetic method wrapper (pointer-receiver wrapper of a value
+// method, promoted-method wrapper, bound-method thunk) to the declared method it calls.
+func Unwrap2(f *ssa.Function) *ssa.Function {
+	for i := 0; i < 4 && f != nil && f.Synthetic != "" && f.Syntax() == nil && len(f.Blocks) > 0; i++ {
+		var target *ssa.Function
+		n := 0
+		for _, b := range f.Blocks {
+			for _, in := range b.Instrs {
+				if ci, ok := in.(ssa.CallInstruction); ok {
+					if sc := ci.Common().StaticCallee(); sc != nil && BaseName(sc) == BaseName(f) {
+						target = sc
+						n++
+					}
+				}
+			}
+		}
+		if n != 1 {
+			return f
+		}
+		f = target
+	}
+	return f
 }
